@@ -485,6 +485,67 @@ Proof.
   - intros q v Hq. unfold c' in Hq. cbn in Hq. apply lookup_delete_Some in Hq as [_ Hq]. exact (Hnf q v Hq).
 Qed.
 
+(* ------------------------------------------------------------------ receive *)
+Lemma find_branch_chans l bs pay K j : find_branch l bs = Some (pay, K) -> In j (form_chans K) -> In j (brs_chans bs).
+Proof.
+  induction bs as [|l' p' k' r IH]; simpl; [discriminate|]. destruct (String.eqb l' l).
+  - intros [= -> ->] H. apply in_app_iff. by left.
+  - intros H H'. apply in_app_iff. right. auto.
+Qed.
+
+Lemma new_self_chans id : name_chans (new_self id) = [].
+Proof. reflexivity. Qed.
+
+Lemma on_message_facts p pp k m e :
+  on_message p pp m = EOk e -> m_rule m <> RGC -> is_dfwd (pr_body0 pp) = false ->
+  (is_fwd_body pp = true -> m_rule m <> RFWD) -> nofd (pr_body0 pp) = true ->
+  exists pp1 cl, e = Eff (Continue pp1) [] [] cl [] /\
+    (pr_provs pp1 = pr_provs pp \/ (m_rule m = RFWD /\ pr_provs pp1 = m_provs m) \/ (exists n, pr_provs pp1 = [n])) /\
+    nofd (pr_body0 pp1) = true /\
+    forall j, In j (form_chans (pr_body0 pp1)) -> In j (form_chans (pr_body0 pp)) \/ j ∈ refs (OMsg k m).
+Proof.
+  intros He Hgc Hdf Hfw Hnf. unfold on_message in He. fold (is_fwd_body pp) in He.
+  destruct (rule_eqb (m_rule m) RFWD && negb (is_fwd_body pp)) eqn:E1.
+  { apply andb_true_iff in E1 as [E1 _]. apply rule_eqb_eq in E1. injection He as <-.
+    eexists _, _. split; [reflexivity|]. cbn. split; [right; left; done|]. split; [done|]. intros j Hj. by left. }
+  destruct (rule_eqb (m_rule m) RGC && negb (is_fwd_body pp)) eqn:E2.
+  { apply andb_true_iff in E2 as [E2 _]. apply rule_eqb_eq in E2. contradiction. }
+  unfold is_fwd_body in Hfw.
+  destruct (pr_body0 pp) as [to pay cont|pay cont from k0|to l cont|from bs|x b k0|c0|c0 k0|to from d|x y from k0|fn args pt|to cont|x from k0|c0 k0|l k0] eqn:Eb;
+    try discriminate; simpl in Hnf.
+  - (* FRecv *)
+    destruct (is_self from); [destruct (rule_eqb (m_rule m) RRCV) eqn:Er|destruct (rule_eqb (m_rule m) RSND) eqn:Er]; try discriminate;
+      apply rule_eqb_eq in Er; injection He as <-; (eexists _, _; split; [reflexivity|]); cbn [pr_provs pr_body0 set_provs_body set_body];
+      (split; [eauto|]); (split; [by rewrite !nofd_subst|]); intros j Hj;
+      repeat (apply form_chans_subst in Hj as [Hj|Hj]); rewrite ?new_self_chans in Hj; try (by destruct Hj);
+      cbn [refs form_chans]; rewrite Er; rewrite ?in_app_iff; try (left; tauto); right; apply elem_In; simpl; rewrite ?in_app_iff; tauto.
+  - (* FCase *)
+    destruct (is_self from); [destruct (rule_eqb (m_rule m) RBRA) eqn:Er|destruct (rule_eqb (m_rule m) RSEL) eqn:Er]; try discriminate;
+      apply rule_eqb_eq in Er; destruct (find_branch (m_label m) bs) as [[pay K]|] eqn:Efb; try discriminate; injection He as <-;
+      (eexists _, _; split; [reflexivity|]); cbn [pr_provs pr_body0 set_provs_body set_body];
+      (split; [eauto|]); (split; [rewrite !nofd_subst; eapply nofd_find; eauto|]); intros j Hj;
+      repeat (apply form_chans_subst in Hj as [Hj|Hj]); rewrite ?new_self_chans in Hj; try (by destruct Hj);
+      cbn [refs form_chans]; rewrite Er; rewrite ?in_app_iff;
+      try (left; right; eapply find_branch_chans; eauto; fail); right; apply elem_In; simpl; rewrite ?in_app_iff; tauto.
+  - (* FWait *)
+    destruct (rule_eqb (m_rule m) RCLS); try discriminate. injection He as <-.
+    eexists _, _. split; [reflexivity|]. cbn. split; [eauto|]. split; [done|]. intros j Hj. left. rewrite in_app_iff. tauto.
+  - (* FFwd *)
+    destruct d; [discriminate|].
+    destruct (m_rule m) eqn:Er; try discriminate;
+      try (injection He as <-; (eexists _, _; split; [reflexivity|]); cbn [pr_provs pr_body0 set_provs_body set_body];
+           (split; [eauto|]); (split; [done|]); intros j Hj; cbn [refs form_chans] in *; rewrite ?Er; rewrite ?in_app_iff in *;
+           destruct Hj as [Hj|Hj]; [left; tauto|right; apply elem_In; rewrite ?in_app_iff; tauto]; fail).
+    + (* RCLS *) injection He as <-. eexists _, _. split; [reflexivity|]. cbn. split; [eauto|]. split; [done|]. intros j Hj. left. rewrite in_app_iff. tauto.
+    + (* RFWD *) exfalso. by apply Hfw.
+  - (* FShift *)
+    destruct (is_self from); [destruct (rule_eqb (m_rule m) RSHF) eqn:Er|destruct (rule_eqb (m_rule m) RCST) eqn:Er]; try discriminate;
+      apply rule_eqb_eq in Er; injection He as <-; (eexists _, _; split; [reflexivity|]); cbn [pr_provs pr_body0 set_provs_body set_body];
+      (split; [eauto|]); (split; [by rewrite !nofd_subst|]); intros j Hj;
+      repeat (apply form_chans_subst in Hj as [Hj|Hj]); rewrite ?new_self_chans in Hj; try (by destruct Hj);
+      cbn [refs form_chans]; rewrite Er; rewrite ?in_app_iff; try (left; tauto); right; apply elem_In; simpl; rewrite ?in_app_iff; tauto.
+Qed.
+
 Record InvX (c : config) : Prop := {
   ix_typed : exists Δ, cfg_typed D F teq Δ c;
   ix_topo : Topo c;
